@@ -272,9 +272,14 @@ struct WL {
         int n = 0;
         // the handle becomes "in use" through operator-> or through operator*
         bool star = (op.c & 2) != 0;
-        for (auto it = star ? (*h).begin() : h->begin(); it != (star ? (*h).end() : h->end()); ++it) {
+        // op.c & 4: advance by post-increment and read through the returned copy
+        bool post = (op.c & 4) != 0;
+        for (auto it = star ? (*h).begin() : h->begin(); it != (star ? (*h).end() : h->end());) {
             for (int y = 0; y < op.b; y++) gsim::yield();
-            long v = value_of(*it);
+            auto cur = it;
+            if (post) cur = it++;
+            else ++it;
+            long v = value_of(*cur);
             {
                 gsim::Oracle o;
                 tr.seen.push_back(v);
@@ -651,7 +656,7 @@ struct WL {
                     op.code = gsim::gen_int(6) == 0 ? OP_WTRAVERSE : OP_TRAVERSE;
                     op.a = gsim::gen_int(3) == 0 ? 1 + gsim::gen_int(3) : 0;
                     op.b = gsim::gen_int(4);
-                    op.c = gsim::gen_int(2) | (gsim::gen_int(3) == 0 ? 2 : 0);
+                    op.c = gsim::gen_int(2) | (gsim::gen_int(3) == 0 ? 2 : 0) | (gsim::gen_int(3) == 0 ? 4 : 0);
                 } else if (role == 3) {
                     op.code = OP_BLIP;
                     op.a = gsim::gen_int(2);
